@@ -2309,7 +2309,36 @@ def _inline_in(fn, lookup, key, stats):
             out.extend(rep if rep is not None else [s])
         return out
 
+    hoisted = [0]
+
     def stmt(s):
+        # a call of a new helper that is not one expression, nested inside a simple statement (`res = res[h(..)]`): name its result first -
+        # `__h = h(..)` / `res = res[__h]` - when everything else the statement evaluates is free of effects (the order cannot matter)
+        if isinstance(s, (ast.Assign, ast.Return, ast.Expr, ast.AugAssign)) and getattr(s, 'value', None) is not None:
+            nested = [c for c in ast.walk(s.value) if isinstance(c, ast.Call) and c is not s.value and lookup(c)]
+            inner_scopes = [m for m in ast.walk(s.value) if isinstance(m, (ast.Lambda, ast.ListComp, ast.SetComp, ast.DictComp, ast.GeneratorExp, ast.IfExp, ast.BoolOp))]
+            if len(nested) == 1 and not any(nested[0] in list(ast.walk(m)) for m in inner_scopes):
+                c = nested[0]
+                h = lookup(c)[0]
+                if _exprify(_body_of(h)) is None and _returns(_body_of(h)):
+                    tname = '__h%d' % hoisted[0]
+                    probe = copy.deepcopy(s)
+                    rest_pure = True
+                    class R(ast.NodeTransformer):
+                        def visit_Call(self, n):
+                            if ast.dump(n) == ast.dump(c):
+                                return ast.Name(id=tname, ctx=ast.Load())
+                            self.generic_visit(n)
+                            return n
+                    probe.value = R().visit(probe.value)
+                    if _pure(probe.value):
+                        hoisted[0] += 1
+                        pre = ast.copy_location(ast.Assign(targets=[ast.copy_location(ast.Name(id=tname, ctx=ast.Store()), c)], value=c), s)
+                        s.value = probe.value
+                        ast.fix_missing_locations(pre)
+                        ast.fix_missing_locations(s)
+                        first = stmt(pre)
+                        return (first if first is not None else [pre]) + [s]
         # statement forms: return h(..) / x = h(..) / h(..)
         call = None
         if isinstance(s, (ast.Return, ast.Expr)) and isinstance(s.value, ast.Call):
